@@ -13,7 +13,7 @@ RULE = ("structurally mutated grammar and fixture documents (delete / retype / r
 
 def correspond(ctx, C):
     st = S.SpecStats()
-    rows = S.run(ctx, C, "specmut", 160, 12000) + S.run(ctx, C, "spec", 256, 3000)
+    rows = S.run(ctx, C, "specmut", 160, 12000) + S.run(ctx, C, "speccat", 128, 1280) + S.run(ctx, C, "spec", 256, 3000)
     known = S.known_for(C, "C07")
     viol, attributed, sites = [], {}, {}
     for r in rows:
@@ -40,7 +40,9 @@ def correspond(ctx, C):
             if "panic" in run or run.get("nilResult"):
                 site = run.get("where", "")
                 sites[site] = sites.get(site, 0) + 1
-                k = next((f for f in known if any(s_ in site for s_ in f.get("site_match", []))), None)
+                k = next((f for f in known if any(s_ in site for s_ in f.get("site_match", []))
+                          and (not f.get("panic_match") or f["panic_match"] in str(run.get("panic", "")))
+                          and not f.get("crash_only")), None)
                 if k:
                     attributed[k["id"]] = attributed.get(k["id"], 0) + 1
                 else:
